@@ -71,10 +71,26 @@ class MeshLine1(MeshSimplex, Mesh):
                           newt,
                           np.vstack((mid, t[1, marked]))))
 
+        if self._subdomains is not None:
+            # the children of marked[i] are the new elements
+            # len(nonmarked) + i and len(nonmarked) + len(marked) + i
+            new_t = np.zeros((2, t.shape[1]), dtype=np.int32) - 1
+            new_t[0, nonmarked] = np.arange(len(nonmarked), dtype=np.int32)
+            new_t[:, marked] = (len(nonmarked)
+                                + np.arange(2 * len(marked), dtype=np.int32)
+                                .reshape(2, -1))
+            subdomains = {
+                name: np.setdiff1d(np.unique(new_t[:, ixs]), [-1])
+                for name, ixs in self._subdomains.items()
+            }
+        else:
+            subdomains = None
+
         return replace(
             self,
             doflocs=newp,
             t=newt,
+            _subdomains=subdomains,
         )
 
     def param(self):
